@@ -873,6 +873,30 @@ def i_CMPXCHG16B(i, fmap):
     fmap[rdx] = v[64:128]
 
 
+def i_XADD(i, fmap):
+    fmap[rip] = fmap[rip] + i.length
+    dst, src = i.operands
+    a = fmap(dst)
+    b = fmap(src)
+    x, carry, overflow = AddWithCarry(a, b)
+    fmap[pf] = parity8(x[0:8])
+    fmap[af] = halfcarry(a, b)
+    fmap[zf] = x == 0
+    fmap[sf] = x < 0
+    fmap[cf] = carry
+    fmap[of] = overflow
+    dst, x = _r32_zx64(dst, x)
+    src, a = _r32_zx64(src, a)
+    if dst._is_mem:
+        # stored first: the address may depend on src
+        fmap[dst] = x
+        fmap[src] = a
+    else:
+        # the sum is written last (xadd r,r with the same register)
+        fmap[src] = a
+        fmap[dst] = x
+
+
 def i_TEST(i, fmap):
     fmap[rip] = fmap[rip] + i.length
     op1 = fmap(i.operands[0])
